@@ -1599,7 +1599,7 @@ def _emitted_variants(F, f, memo, depth=0):
     return out
 
 
-def encoder_loop_variants(F, f):
+def encoder_loop_variants(F, f, _depth=0):
     """(direct, via_calls): variants constructed inside a loop of encoder `f` itself / emitted by anything it calls from
     inside a loop (closures handed to iterator adapters count as loop bodies)"""
     b = Body(f)
@@ -1624,6 +1624,17 @@ def encoder_loop_variants(F, f):
         direct |= {st["rv"]["variant"] for blk in cf.body["blocks"] for st in blk["st"]
                    if st["k"] == "assign" and st["rv"]["k"] == "agg" and st["rv"].get("id") == gc.REC and st["rv"].get("variant")}
         via |= _emitted_variants(F, cf, memo)
+    # a helper called outside any loop may contain the loop itself (`self.encode_properties(&x.properties)?`)
+    if _depth < 4:
+        for bi, blk in enumerate(b.blocks):
+            t = blk["term"]
+            if bi in inloop or t["k"] != "call":
+                continue
+            h = F.fns.get(callee_id(t))
+            if h is not None and h.body and h.id.startswith("gds21::write::") and h.id != f.id and h.kind != "Closure":
+                d2, v2 = encoder_loop_variants(F, h, _depth + 1)
+                direct |= d2
+                via |= v2
     return direct, via
 
 
